@@ -32,6 +32,8 @@ type Run struct {
 	// Via = "compiled": every template reaches the engine as compiled bytes (parsed and compiled on another engine,
 	// serialised, loaded with LoadFromCompiledData)
 	Via string `json:"via"`
+	// MayFail: the run may also end in an error (any); if it renders, the output is compared as usual
+	MayFail bool `json:"mayfail"`
 	// Alt: another output this run may give (then it takes no part in the "same" relation)
 	Alt *[]int `json:"alt"`
 	// per-run engine options
@@ -984,7 +986,9 @@ func checkCase(c *Case, limit time.Duration) (res Result, hung bool) {
 		if c.Expect.AnyOutcome {
 			// nothing to compare against: relations between runs are checked below
 		} else if c.Expect.Ok {
-			if !o.ok {
+			if !o.ok && r.MayFail && o.kind != "panic" && o.kind != "hang" {
+				// accepted
+			} else if !o.ok {
 				fail("unexpected-error", o.kind+": "+o.errMsg, want)
 			} else if !c.Expect.NoOut && o.out != want && !(r.Alt != nil && o.out == textOf(*r.Alt, r.Pads, false)) {
 				fail("output", o.out, want)
